@@ -37,6 +37,55 @@ def handler_name_assigned_in_nested_statement(p):
     return None
 
 
+def handler_name_used_outside_handler(p):
+    """A name bound by `except E as name` that the function also reads or assigns outside that handler."""
+    par = mpsig.parents(p)
+    for n, d in enumerate(p['nodes'], 1):
+        if d['kind'] != 'try':
+            continue
+        for h in d['handlers']:
+            nm = h.get('name')
+            if not nm:
+                continue
+            inside = set()
+            todo = list(h['body'])
+            while todo:
+                m = todo.pop()
+                inside.add(m)
+                dd = p['nodes'][m - 1]
+                todo += dd['body'] + dd['orelse'] + dd['final'] + [x for hh in dd['handlers'] for x in hh['body']]
+            for m, dd in enumerate(p['nodes'], 1):
+                if m in inside or dd['fn'] != d['fn']:
+                    continue
+                uses = set(dd['tgt']) | set(dd['args'])
+                if dd['e']:
+                    uses |= _expr_names(p, dd['e'])
+                if nm in uses:
+                    return nm
+    return None
+
+
+def _expr_names(p, e):
+    x = p['exprs'][e - 1]
+    out = set(x['reads']) | ({x['name']} if x['name'] else set())
+    for a in x['args']:
+        out |= _expr_names(p, a)
+    return out
+
+
+def for_target_assigned_in_body(p):
+    for n, d in enumerate(p['nodes'], 1):
+        if d['kind'] == 'for':
+            todo = list(d['body'])
+            while todo:
+                m = todo.pop()
+                dd = p['nodes'][m - 1]
+                if set(dd['tgt']) & set(d['tgt']) and dd['kind'] != 'for':
+                    return True
+                todo += dd['body'] + dd['orelse'] + dd['final'] + [x for hh in dd['handlers'] for x in hh['body']]
+    return False
+
+
 def classify(p, d, rec, claims):
     """Semantic signature of a divergence between the prediction and the converted function."""
     bad = mpmon.parse_bad(rec['bad']) if rec.get('bad') else None
@@ -54,6 +103,20 @@ def classify(p, d, rec, claims):
                 'the variable %s bound by `except ... as %s` is also assigned inside a nested statement of the handler: the '
                 'converter emits `%s = ag__.Undefined(...)` before that statement (the handler binding is not a reaching '
                 'definition), so the bound exception is lost and a later read raises NameError' % (hn, hn, hn))
+    hs = handler_name_used_outside_handler(p)
+    if hs and obs[0] == 'exc' and obs[1] == 'NameError' and exp != obs:
+        return ('c01:except-as-name-shadows-outer-variable-in-generated-body',
+                'the name %s is bound by `except ... as %s` and is an ordinary variable of the function outside that handler; when '
+                'the try statement ends up inside a generated body function the except clause makes the name local to it, so '
+                'reads of the outer variable raise UnboundLocalError' % (hs, hs))
+    i0, ev0, ov0 = first_divergence(d)
+    if ev0 and ov0 and ev0[:2] == ov0[:2] and len(ev0[2]) == len(ov0[2]):
+        for x, y in zip(ev0[2], ov0[2]):
+            if x != y and y[0] == 'e' and for_target_assigned_in_body(p):
+                return ('c01:diverge:for-header-kills-target',
+                        'a variable that is a for-loop target holds the loop element (%s) where the value assigned to it inside the '
+                        'loop body (%s) was expected: the analyses run on the lowered tree lose the assignment (for-header kills its '
+                        'target, findings C06/C07)' % (y, x))
     if rec.get('delx'):
         return ('c01:del-of-unbound-variable-does-not-raise',
                 'del of an unbound variable raises NameError in Python; the converted function continues (%s)' % (obs,))
